@@ -27,7 +27,12 @@ CFG = {
                           "effect; a table dropped by pop is MissingTable for name-indexed access also after its table "
                           "id is reused; clone isolation REFUTED in the faithful model (F6 witness) and proved for "
                           "interleavings in which a copy never declares a table name the other copy has or declares",
-        "link_only": "deep-copy of the backend by Database::clone / TableInfo::clone / SortedWritesTable / DisplacedTable "
+        "link_only": "the bridge's panic side channel (Arc<Mutex<Option<String>>>, shared by derive(Clone) between the live "
+                     "e-graph, pushed snapshots and clones like the registry; empty between commands in the repaired "
+                     "run_rules_inner, which takes a second error raised by the rebuild-before-report): not in the "
+                     "model, exercised by h_snap's compound failures (union + panic / :no-merge conflict / failing "
+                     "primitive in one iteration inside Q and in one clone, rule-running commands first in R and on "
+                     "the other clone); deep-copy of the backend by Database::clone / TableInfo::clone / SortedWritesTable / DisplacedTable "
                      "/ Counters (the abstract db of the model is copied by construction; on the engine this is what "
                      "the triple and pair families test through observations, prints, runs and API reads after every "
                      "command); extension state, schedulers, user-defined commands and command macros (copied by "
